@@ -1116,6 +1116,7 @@ class Renderer:
             else:
                 lines.append('%s %s { _Alignas(%d) unsigned char __opaque[%d]; }; /* opaque: %s */' % (ent['kind'], c, ent['align'], max(ent['size'], 1), q))
             lines.append('_Static_assert(sizeof(%s %s) == %d, "size %s");' % (ent['kind'], c, max(ent['size'], 1), c))
+            lines.append('#define G2C_HAVE_%s 1' % re.sub(r'\W', '_', c))
         for q in sorted(lay):
             emit(q)
         for q in sorted(ans.get('enums', {})):
@@ -1203,6 +1204,25 @@ class Renderer:
                     for op2, nm2 in parts[i + 1:]:
                         if not nm2.startswith('@B'):
                             nxt = nm2; break
+                    ent_q = self.layouts.get(q) or {}
+                    if not ent_q.get('bases') and ent_q.get('opaque_bases'):
+                        # base sub-object of an opaque (library) type: address arithmetic with the DWARF offset
+                        obs = ent_q['opaque_bases']
+                        pick = None
+                        if len(obs) == 1:
+                            pick = obs[0]
+                        else:
+                            mh = re.match(r'^@B(\d+)@$', nm)
+                            want = self.uid_q.get(self.base_field_struct.get(mh.group(1), '')) if mh else None
+                            cand = [o for o in obs if o[0] == want]
+                            if len(cand) == 1:
+                                pick = cand[0]
+                        if pick is None:
+                            raise G2CError('ambiguous base sub-object of opaque %s (in %s)' % (q, fr.f.pretty))
+                        addr = ('&(%s)' % outp) if op == '.' else outp
+                        outp = '(*(struct %s *)((char *)%s + %d))' % (cn(pick[0]), addr, pick[1])
+                        q = pick[0]
+                        continue
                     try:
                         bq = self.base_of(q, nm, nxt)
                     except G2CError as e:
